@@ -464,6 +464,16 @@ func cmdCheck(args []string) {
 		}
 		// violations: replay each natively before reporting
 		for i, v := range r.Violations {
+			if i >= 8 {
+				fmt.Printf("NOTE property=%s harness=%s: %d further distinct candidate(s) not replayed (cap 8 per harness)\n", prop, h.Fn, len(r.Violations)-8)
+				if kfAll(known, prop, r.Violations[8:]) {
+					break
+				}
+				if exit < 1 {
+					exit = 1
+				}
+				break
+			}
 			mode := h.ReplayMode
 			if v.Kind == "race" {
 				mode = "race"
@@ -580,6 +590,17 @@ func cmdCheck(args []string) {
 		os.RemoveAll(work)
 	}
 	os.Exit(exit)
+}
+
+// kfAll: every remaining candidate matches an open known finding.
+func kfAll(kfs []KnownFinding, prop string, vs []*sym.Violation) bool {
+	for _, v := range vs {
+		kf := matchKnown(kfs, prop, v)
+		if kf == nil || kf.Status != "open" {
+			return false
+		}
+	}
+	return true
 }
 
 func envOr(k, d string) string {
